@@ -48,6 +48,10 @@ class InjectedFault(Exception):
     """The exception the simulator raises from user code (model / loss / sampler) at a chosen invocation."""
 
 
+class InjectedInterrupt(KeyboardInterrupt):
+    """The same injected failure as a non-Exception BaseException (Ctrl-C / SystemExit class of faults)."""
+
+
 class SimCrash(BaseException):
     """Process death: the live object is abandoned, only the folder survives."""
 
